@@ -38,13 +38,7 @@ pub const NOT_INSTRUCTION_METHODS: &[&str] = &[
 /// They pass the concrete runs (vp_run sample, thousands of operands, llvm-mc cross-check).
 /// Not reachable through any public method (so not covered by any row): the private immediate forms
 /// b_imm / bc_imm / tbz_imm / tbnz_imm and the FP/SIMD (`v`) variant of cls::ldst_pair*.
-pub const NOT_COVERED: &[(&str, &str)] = &[
-    ("ldr_mem_w", "row exists; CBMC out of memory (needs ~15 GB free, 10-15 min): undecided"),
-    ("ldr_mem_b", "row exists; CBMC out of memory (needs ~15 GB free, 10-15 min): undecided"),
-    ("ldr_mem_s", "row exists; CBMC out of memory (needs ~15 GB free, 10-15 min): undecided"),
-    ("str_mem_b", "row exists; CBMC out of memory (needs ~15 GB free, 10-15 min): undecided"),
-    ("str_mem_d", "row exists; CBMC out of memory (needs ~15 GB free, 10-15 min): undecided"),
-];
+pub const NOT_COVERED: &[(&str, &str)] = &[];
 
 /// rows that CBMC decides, but slowly (5 min for mov_imm, 10-15 min and several GB each for the
 /// ldr_mem_* / str_mem_* helpers, which contain mov_imm): a driver with a time budget may skip them.
